@@ -799,22 +799,22 @@ def judge_group(case):
 
 
 CHECKS = [
-    Check("hist_scale", judge_hscale, strategy=strat_hscale, quick=1500, thorough=60000,
+    Check("hist_scale", judge_hscale, strategy=strat_hscale, quick=3000, thorough=60000,
           rule="histograms (1-3 dim, uneven dyadic edges, int/float/mixed/zero contents, n_out_of_range) rescaled to non-zero targets; non-trivial = dim>=2 or uneven edges with float contents."),
-    Check("hist_add", judge_add, strategy=lambda tier: add_case(), quick=1500, thorough=60000,
+    Check("hist_add", judge_add, strategy=lambda tier: add_case(), quick=3000, thorough=60000,
           rule="pairs with equal edges / one shifted edge / one edge array a prefix of the other / other dimension / non-histogram, weights incl. 0 and negatives; edge magnitudes 1e-10..1e8, one edge moved by 1-3 ulps, default and explicit edges_abs_tol / edges_rel_tol: accepted iff math.isclose says so for every edge."),
-    Check("set_nevents", judge_nevents, strategy=strat_nevents, quick=1000, thorough=40000,
+    Check("set_nevents", judge_nevents, strategy=strat_nevents, quick=2000, thorough=40000,
           rule="set_nevents / get_nevents with both include_out_of_range settings; zero events rejected."),
-    Check("hist_to_graph", judge_convert, strategy=strat_convert, quick=1200, thorough=50000,
+    Check("hist_to_graph", judge_convert, strategy=strat_convert, quick=2400, thorough=50000,
           rule="left/right/middle coordinates, make_value variants (incl. error columns), scale None/True/number, field names as tuple or string."),
-    Check("iterators", judge_iter, strategy=lambda tier: iter_case(), quick=1200, thorough=50000,
+    Check("iterators", judge_iter, strategy=lambda tier: iter_case(), quick=2400, thorough=50000,
           rule="iter_bins / iter_bins_with_edges / iter_cells agree with an independent index loop; index sub-ranges incl. empty and invalid ones."),
-    Check("csv", judge_csv, strategy=strat_csv, quick=1200, thorough=50000,
+    Check("csv", judge_csv, strategy=strat_csv, quick=2400, thorough=50000,
           rule="hist1d_to_csv / hist2d_to_csv / ToCSV (element and context duplicate_last_bin, separators, header, row_end) parsed back within 5e-7."),
-    Check("graph_scale", judge_gscale, strategy=strat_gscale, quick=1500, thorough=60000,
+    Check("graph_scale", judge_gscale, strategy=strat_gscale, quick=3000, thorough=60000,
           rule="graphs with 1-3 coordinates, 0-3 error fields in every valid naming, columns possibly sharing one list, scale known/None/0; "
                "non-trivial = an error field that does not belong to the last coordinate, or shared columns."),
-    Check("groups", judge_group, strategy=lambda tier: group_case(), quick=800, thorough=30000,
+    Check("groups", judge_group, strategy=lambda tier: group_case(), quick=1600, thorough=30000,
           rule="scale_to / GroupScale (number or selector target, allow_* flags) / ScaleTo over groups of histograms and graphs."),
 ]
 
